@@ -52,7 +52,10 @@ def findings():
 
     def kron_nonsq():
         W, V = np.arange(6.).reshape(2, 3) + 1, np.arange(6.).reshape(3, 2) + 1
-        d = np.asarray(diag(ops.Kronecker(ops.Dense(W), ops.Dense(V)), 0))
+        try:
+            d = np.asarray(diag(ops.Kronecker(ops.Dense(W), ops.Dense(V)), 0))
+        except AssertionError as e:
+            return False, f"refuses: AssertionError {e}"       # a refusal is what the statement allows
         want = np.diag(np.kron(W, V))
         return not (d.shape == want.shape and np.array_equal(d, want)), f"shape {d.shape}, expected {want.shape}"
     probe("kron_diag_nonsquare_factors", "diag(Kronecker) takes the outer product of the factors' diagonals, which is not the diagonal "
@@ -62,7 +65,10 @@ def findings():
     def bd_nonsq():
         W, V = np.arange(6.).reshape(2, 3) + 1, np.arange(6.).reshape(3, 2) + 1
         B = ops.BlockDiag(ops.Dense(W), ops.Dense(V), multiplicities=[1, 1])
-        d = np.asarray(diag(B, 0))
+        try:
+            d = np.asarray(diag(B, 0))
+        except AssertionError as e:
+            return False, f"refuses: AssertionError {e}"
         want = np.diag(np.asarray(B.to_dense()))
         return not (d.shape == want.shape and np.array_equal(d, want)), f"{d.tolist()}, expected {want.tolist()}"
     probe("blockdiag_diag_nonsquare_blocks", "diag(BlockDiag) concatenates the blocks' own diagonals, which is not the diagonal when the "
@@ -121,6 +127,11 @@ def run(ctx):
     rnd = ctx.rng
     fnd = findings()
     present = {f["flag"] for f in fnd if f["present"]}
+    df = dict(ragged_fixed="exact_diag_ragged_chunk" not in present, kron_refuse="kron_diag_nonsquare_factors" not in present,
+              bd_refuse="blockdiag_diag_nonsquare_blocks" not in present)
+
+    def rag(n, k):   # offsets on which the implementation is expected to raise (they are cheap for the Coq side)
+        return (not df["ragged_fixed"]) and L.ragged(L.BS, n, k)
     nonsq_p = 0.06 if ({"kron_diag_nonsquare_factors", "blockdiag_diag_nonsquare_blocks"} & present) else 0.25
     mism, attributed = [], {}
     tcases, gcases = [], []
@@ -145,8 +156,8 @@ def run(ctx):
             t = g.big_struct(n) if j % 2 == 0 else g.big_cheap_generic(n)
             ks = offsets_sample(rnd, n, 4)
             if j % 2 == 1:   # the Coq cost is in the offsets that do not raise
-                good = [k for k in ks if not L.ragged(L.BS, n, k)]
-                ks = [k for k in ks if L.ragged(L.BS, n, k)][:8] + rnd.sample(good, min(len(good), ctx.budget(5, 10)))
+                good = [k for k in ks if not rag(n, k)]
+                ks = [k for k in ks if rag(n, k)][:8] + rnd.sample(good, min(len(good), ctx.budget(5, 10)))
             tcases.append(dict(tree=t, n=n, dqs=[(k, EX) for k in ks] + [(0, AU)], tqs=[EX] if j % 2 == 0 else [],
                                allk=list(range(-n + 1, n)), cls="big_struct" if j % 2 == 0 else "big_generic"))
     # ---- T3: large generic operators with dense payloads: index-level exact_diag on the oracle's dense matrix
@@ -156,8 +167,8 @@ def run(ctx):
             g = L.SqGen(rnd, dt, vmax=2)
             t = g.big_dense_generic(n)
             ks = offsets_sample(rnd, n, 2)
-            good = [k for k in ks if not L.ragged(L.BS, n, k)]
-            vq = [k for k in ks if L.ragged(L.BS, n, k)][:6] + rnd.sample(good, min(len(good), ctx.budget(5, 9)))
+            good = [k for k in ks if not rag(n, k)]
+            vq = [k for k in ks if rag(n, k)][:6] + rnd.sample(good, min(len(good), ctx.budget(5, 9)))
             # dense payloads are the slow ones on the implementation side: every offset only in the thorough tier
             allk = list(range(-n + 1, n)) if ctx.tier == "thorough" else sorted(set(offsets_sample(rnd, n, 30)) - {n, -n})
             gcases.append(dict(tree=t, n=n, vq=vq, allk=allk))
@@ -205,7 +216,7 @@ def run(ctx):
                     else:
                         mism.append(dict(oracle_fail=True, case=dict(tree=t, k=k, alg=a, what=what), got=o, oracle_says=why))
     # ---- model vs implementation inside Coq
-    tterms = [L.coq_tcase(c["tree"], c["n"], c["dqs"], c["dobs"], c["tqs"], c["tobs"]) for c in tcases]
+    tterms = [L.coq_tcase(c["tree"], c["n"], c["dqs"], c["dobs"], c["tqs"], c["tobs"], df) for c in tcases]
     order = sorted(range(len(tcases)), key=lambda i: (tcases[i]["cls"] != "small", i))
     small_idx = [i for i in order if tcases[i]["cls"] == "small"]
     big_idx = [i for i in order if tcases[i]["cls"] != "small"]
@@ -226,7 +237,7 @@ def run(ctx):
     gterms = []
     for c in gcases:
         cls = [(k, o["cls"] == "err") for k, o in zip(c["allk"], c["allobs"])]
-        gterms.append(L.coq_gcase(c["n"], T.dense(c["tree"]), c["vq"], c["dobs"], cls))
+        gterms.append(L.coq_gcase(c["n"], T.dense(c["tree"]), c["vq"], c["dobs"], cls, df))
     bad, nq, err = L.eval_coq("c08_dense", gterms, "gcase", "gmism", "gcount", 1)
     nq_coq += nq
     if err:
@@ -260,5 +271,5 @@ def run(ctx):
         samples=[dict(tree=c["tree"], offsets=[q[0] for q in c["dqs"]][:8]) for c in tcases[:2]],
         mismatches=mism, findings=fnd,
         extra=dict(tree_cases=len(tcases), dense_cases=len(gcases), queries_compared_in_coq=nq_coq, kind_histogram=hist,
-                   sizes=sorted({c["n"] for c in allc}), outcome_classes=outcome, attributed_to_present_flags=attributed,
+                   sizes=sorted({c["n"] for c in allc}), outcome_classes=outcome, attributed_to_present_flags=attributed, model_flags=df,
                    complex_cases=sum(1 for c in allc if any(d in T.CPLX for d in O.leaf_dts(c["tree"])))))
